@@ -32,6 +32,15 @@ package reg
 //@   requires chunk-is-buffer: caller.chunkSize == len(caller.bufBytes) && caller.chunkSize > 0
 //@   requires body-length: req.BodyLen == caller.chunkSize
 //@   requires body-views-buffer: $view(caller.bufRdr) == caller.bufBytes
+// C12: an upload session never keeps re-sending chunks once its retry budget is used up - every
+// PATCH is sent with at most retryLimit failed attempts outstanding (successes pay the budget back).
+//@ callsite (*~/internal/reghttp.Client).Do(ctx, req)
+//@   prop C12
+//@   name reghttp.Do/chunk-budget
+//@   in ~/scheme/reg
+//@   infunc \)\.blobPutUploadChunked$
+//@   where is-chunk: req.Method == "PATCH"
+//@   requires retry-budget-respected: 0 <= caller.retryCur && caller.retryCur <= caller.retryLimit
 //@ callsite io.ReadFull(r, buf)
 //@   prop C05
 //@   name io.ReadFull/chunked
@@ -42,9 +51,10 @@ package reg
 // the caller's stream (io.EOF / io.ErrUnexpectedEOF); finalChunk may only be set on that evidence.
 //@ ghost $srcEnded bool
 //@ func (*Reg).blobPutUploadChunked(ctx, r, d, putURL, rdr) (dRet, err)
-//@   prop C05
+//@   prop C05, C12
 //@   on-call ReadFull: $srcEnded = (result1 == io.EOF || result1 == io.ErrUnexpectedEOF)
 //@   loop 0 ()
+//@     invariant retry-budget: 0 <= retryCur && retryCur <= retryLimit
 //@     invariant final-means-stream-ended: finalChunk ==> $srcEnded
 //@     invariant size-is-len: chunkSize == len(bufBytes) && len(bufBytes) <= cap(bufBytes)
 //@     invariant reader-view: bufRdr != nil && $view(bufRdr) == bufBytes
